@@ -232,13 +232,21 @@ def check_gate(case):
     alg.S = set(S)
     alg.P = set()
     shallow = [i for i in S if ds.point_depths[i] != md]
-    alg.epsiloncovering()
-    P1, S1 = set(alg.P), set(alg.S)
-    bad = [p for p in P1 if ds.point_depths[p] != md]
-    if bad:
-        return Result.violation("C18:gate:P-member-not-at-max-depth", f"S={S} depths={[ds.point_depths[i] for i in S]} max={md}: declared Pareto {sorted(P1)}", labels)
-    if shallow and (P1 or S1 != set(S)):
-        return Result.violation("C18:gate:covering-ran-with-shallow-candidate", f"S={S} depths={[ds.point_depths[i] for i in S]} -> S={sorted(S1)} P={sorted(P1)}", labels)
+    # the phase is called in consecutive rounds on the same state: a gate that closes correctly once must not be left
+    # open for the next round by what the first call did
+    for call in (1, 2, 3):
+        alg.epsiloncovering()
+        P1, S1 = set(alg.P), set(alg.S)
+        bad = [p for p in P1 if ds.point_depths[p] != md]
+        tag = "" if call == 1 else ":repeated-call"
+        if bad:
+            return Result.violation("C18:gate:P-member-not-at-max-depth" + tag, f"S={S} depths={[ds.point_depths[i] for i in S]} max={md}: declared Pareto "
+                                    f"{sorted(P1)} (call {call})", labels)
+        if shallow and (P1 or S1 != set(S)):
+            return Result.violation("C18:gate:covering-ran-with-shallow-candidate" + tag, f"S={S} depths={[ds.point_depths[i] for i in S]} -> S={sorted(S1)} "
+                                    f"P={sorted(P1)} (call {call})", labels)
+        if not shallow:
+            break
     if not shallow:
         labels.append("all-at-max-depth")
         if len(S) >= 2 and not P1:
@@ -288,6 +296,6 @@ def _ad():
 COMPONENTS = [
     Component("refine_histories", check_space, strategy=st_space, quick=1500, thorough=40000, rule="1..12 ops: refine any leaf below max depth (a quarter of the cases: one branch down to depth 6..12) / update / should_refine"),
     Component("covering_gate_injected", check_gate, strategy=st_gate, quick=200, thorough=5000,
-              rule="VOGP_AD.epsiloncovering() on an injected candidate set of mixed depths (any index order) with un-coverable regions"),
+              rule="VOGP_AD.epsiloncovering(), called up to three times in a row, on an injected candidate set of mixed depths (any index order) with un-coverable regions"),
     Component("vogp_ad_runs", check_run, strategy=_ad, quick=48, thorough=1500, rule="VOGP_AD runs (<= 80 steps), d=1..3, depth 1..3, cones, eps, contractions"),
 ]
